@@ -32,7 +32,9 @@ fn run_geo(c: &MultiCase) -> CaseResult {
         // bars may have scrolled away and are only erased as far as they can be reached
         let max_up = it.vt.lock().max_up;
         let retained: usize = it.model.blocks.iter().map(|b| height_of(&b.lines, it.cols)).sum();
-        ensure!(max_up <= it.rows.saturating_sub(1) + retained, "cursor_up_too_far", "{ctx}: move_cursor_up({max_up}) on a terminal with {} rows ({retained} retained rows)", it.rows);
+        // (bottom alignment: after the region was emptied the cursor is parked on the row below it, one more row up)
+        let below = usize::from(it.model.bottom_ever);
+        ensure!(max_up <= it.rows.saturating_sub(1) + retained + below, "cursor_up_too_far", "{ctx}: move_cursor_up({max_up}) on a terminal with {} rows ({retained} retained rows)", it.rows);
         if !out.frames.is_empty() {
             let full = it.model.frame();
             let h = height_of(&full, it.cols);
@@ -57,6 +59,35 @@ fn run_geo(c: &MultiCase) -> CaseResult {
     Ok(v)
 }
 
+fn run_bottom(c: &MultiCase) -> CaseResult {
+    let _clk = clock::Armed::new();
+    let mut it = Interp::new(c);
+    let mut v = Verdict::default();
+    let (mut wraps, mut shrinks) = (false, false);
+    let mut prev_h = 0;
+    for (i, op) in c.ops.iter().enumerate() {
+        clock::advance(Duration::from_millis(2));
+        let out = catch(|| it.step(op)).map_err(|p| Fail::new("panic", format!("op #{i} {op:?} panicked: {p} ({}x{} terminal, ops {:?})", it.rows, it.cols, &c.ops[..=i])))??;
+        if out.skipped {
+            continue;
+        }
+        let ctx = format!("op #{i} {op:?} ({}x{} terminal, bottom alignment, ops {:?})", it.rows, it.cols, &c.ops[..=i]);
+        it.check_frames(&out, &ctx).map_err(|f| Fail::new("geometry_bottom", f.msg))?;
+        if !out.frames.is_empty() {
+            let full = it.model.frame();
+            let h = height_of(&full, it.cols);
+            shrinks |= h < prev_h;
+            prev_h = h;
+            wraps |= full.iter().any(|l| console::measure_text_width(l) > it.cols);
+        }
+    }
+    it.teardown()?;
+    v.nontrivial = wraps;
+    v.label_if(wraps, "line_wraps");
+    v.label_if(shrinks, "region_shrinks_under_bottom_alignment");
+    Ok(v)
+}
+
 fn geo_strategy(tier: Tier) -> BoxedStrategy<MultiCase> {
     let n = tier.pick(30, 50);
     let (max_rows, max_cols) = tier.pick((12u8, 40u8), (40, 200));
@@ -72,7 +103,9 @@ fn geo_strategy(tier: Tier) -> BoxedStrategy<MultiCase> {
             let msg2 = msg.clone();
             let spec = (proptest::option::weighted(0.8, 1u64..50), prop_oneof![3 => Just(2u8), 2 => Just(0u8), 1 => 1u8..5], msg.clone())
                 .prop_map(|(len, on_finish, msg)| BarSpec { two_lines: false, len, on_finish, msg });
-            let log = prop_oneof![3 => "[a-z]{1,4}", 1 => (0usize..3, -1i32..=1).prop_map(move |(k, d)| "l".repeat(((k * c) as i32 + d).max(0) as usize)), 1 => (c / 2 + 1..c + 2).prop_map(move |n| if c % 2 == 0 { "\u{6357}".repeat(n) } else { "l".repeat(n) })];
+            let log = prop_oneof![3 => "[a-z]{1,4}", 1 => (0usize..3, -1i32..=1).prop_map(move |(k, d)| "l".repeat(((k * c) as i32 + d).max(0) as usize)), 1 => (c / 2 + 1..c + 2).prop_map(move |n| if c % 2 == 0 { "\u{6357}".repeat(n) } else { "l".repeat(n) }),
+                // several lines in one draw: a line that exactly fills k rows, a blank line, another line
+                1 => (1usize..3, "[a-z]{0,3}").prop_map(move |(k, z)| format!("{}\n\n{z}", "f".repeat(k * c)))];
             let op = prop_oneof![
                 6 => spec.prop_map(MOp::Add),
                 2 => s().prop_map(MOp::Remove),
@@ -91,6 +124,46 @@ fn geo_strategy(tier: Tier) -> BoxedStrategy<MultiCase> {
         .boxed()
 }
 
+/// Bottom alignment with bars whose messages wrap: the region is at most 12 rows on a 16-row terminal (the
+/// blank shift rows never scroll away) and nothing prints text, clears, suspends or drops a handle, so
+/// the strict bottom-alignment oracle of C02 applies while the wrapped-row accounting is exercised.
+fn bottom_strategy(tier: Tier) -> BoxedStrategy<MultiCase> {
+    let n = tier.pick(24, 40);
+    (4u8..=40)
+        .prop_flat_map(move |cols| {
+            let c = cols as usize;
+            let s = || any::<u16>();
+            let msg = (0usize..3, -2i32..=2).prop_map(move |(k, d)| "w".repeat(((k * c) as i32 + d - 5).max(0) as usize));
+            let spec = (proptest::option::weighted(0.8, 1u64..50), prop_oneof![3 => Just(2u8), 2 => Just(0u8)], msg.clone()).prop_map(|(len, on_finish, msg)| BarSpec { two_lines: false, len, on_finish, msg });
+            let op = prop_oneof![
+                3 => spec.prop_map(MOp::Add),
+                3 => s().prop_map(MOp::Remove),
+                6 => s().prop_map(MOp::Tick),
+                2 => (s(), 1u64..4).prop_map(|(i, d)| MOp::Inc(i, d)),
+                6 => (s(), msg).prop_map(|(i, m)| MOp::SetMessage(i, m)),
+                2 => s().prop_map(MOp::Finish),
+                2 => s().prop_map(MOp::FinishAndClear),
+            ];
+            (Just(cols), proptest::collection::vec(op, 0..n))
+        })
+        .prop_map(|(cols, ops)| {
+            let mut all = vec![MOp::SetAlignment(true)];
+            let mut bars = 0;
+            for op in ops {
+                // at most four bars of at most three rows each
+                if matches!(op, MOp::Add(_)) {
+                    bars += 1;
+                    if bars > 4 {
+                        continue;
+                    }
+                }
+                all.push(op);
+            }
+            MultiCase { rows: 16, cols, hz: None, step_ms: 2, ops: all, final_drops: vec![] }
+        })
+        .boxed()
+}
+
 pub fn property() -> Property {
     let w = default_workers();
     Property {
@@ -98,7 +171,7 @@ pub fn property() -> Property {
         level: "exploration",
         assumptions: &[
             "single-line bars (which wrap over several rows); the statement does not say whether a multi-line bar may be cut between its lines",
-            "top alignment; full-screen oracle: scroll-back + visible rows must be exactly printed lines ++ retained blocks ++ the leading bar lines whose rows fit the height, so a bar row that scrolled out or survived a redraw shows up as a mismatch",
+            "top alignment (bottom alignment is exercised by C02 on terminals that are tall enough; on a terminal that the region fills completely the blank shift rows scroll away, which no statement covers); full-screen oracle: scroll-back + visible rows must be exactly printed lines ++ retained blocks ++ the leading bar lines whose rows fit the height, so a bar row that scrolled out or survived a redraw shows up as a mismatch",
             "double-width glyphs only where none meets the last cell of a row: where such a glyph goes is terminal-dependent, those cases are discarded and counted under the label discarded_wide_glyph_at_right_margin",
         ],
         parts: vec![Box::new(Gen::<MultiCase> {
@@ -111,6 +184,17 @@ pub fn property() -> Property {
             essential: &["line_wraps", "frame_taller_than_terminal", "fits_again_after_overflow", "one_row_or_one_column", "log_lines", "double_width_line_wraps_with_fewer_chars_than_columns"],
             workers: w,
             decode: Some(|u| decode_multi(u, 2)),
+        }),
+        Box::new(Gen::<MultiCase> {
+            name: "bottom_wrap",
+            rule: "bottom-aligned MultiProgress on a 16-row x 4..40-column terminal, at most four single-line bars whose messages wrap over 1-3 rows; ops add/remove/tick/inc/set_message/finish/finish_and_clear (no text, clear, suspend or drop, so the strict bottom-alignment oracle applies): at every flush the screen is the blank shift rows followed by the drawn members, rows counted as wrapped; non-trivial = a line wraps",
+            strategy: bottom_strategy,
+            cases: |t| t.pick(1_000, 200_000),
+            run: run_bottom,
+            signature: crate::props::c02::signature,
+            essential: &["line_wraps", "region_shrinks_under_bottom_alignment"],
+            workers: w,
+            decode: None,
         })],
     }
 }
